@@ -781,6 +781,12 @@ func init() {
 		theory[cn+".MustMarshalLengthPrefixed"] = marshal(true)
 		theory[cn+".MustUnmarshalLengthPrefixed"] = unmarshal(true)
 	}
+	// a package-level amino codec used on the same messages (A-CODEC: decoding returns what was encoded)
+	ac := "(*github.com/cosmos/cosmos-sdk/codec.AminoCodec)."
+	theory[ac+"MustMarshal"] = marshal(true)
+	theory[ac+"Marshal"] = marshal(false)
+	theory[ac+"MustUnmarshal"] = unmarshal(true)
+	theory[ac+"Unmarshal"] = unmarshal(false)
 }
 
 // unwrapGogo: gogotypes wrappers (UInt64Value, StringValue, ...) are encoded as their Value field.
